@@ -792,8 +792,11 @@ def walk_loss(case, impl):
     draws = [bitsf(b) for b in impl.get("draws", [])]
     copies = []
     k = 0
+    rng = [bitsf(cfg["defaultRange"])] * n
     for c in parse(impl["trace"]):
         for req, ok, _ in c["reqs"]:
+            if req[0] == "setRange" and ok and cfg["hasComm"]:
+                rng[c["n"]] = bitsf(req[1])
             if req[0] not in ("send", "broadcast") or not ok or not cfg["hasComm"]:
                 continue
             if req[0] == "send":
@@ -811,6 +814,10 @@ def walk_loss(case, impl):
                 else:
                     cp["draw"] = None
                     cp["expect"] = True
+                if rng[c["n"]] < 1.0e5:
+                    # a sender that has shrunk its own range: its copy still consumes its draw, whether it
+                    # arrives is C09's business and is not judged here
+                    cp["expect"] = None
                 copies.append(cp)
     return copies, k
 
@@ -845,6 +852,11 @@ class C10(SimCheck):
         cfg["failRate"] = fbits(rate)
         if random.Random(stable_hash("unlimited", scn.get("seed", 0))).random() < self.unlimited_share:
             cfg["defaultRange"] = fbits(float("inf"))
+        elif random.Random(stable_hash("mixedranges", scn.get("seed", 0))).random() < 0.2:
+            # some nodes shrink their OWN range to next to nothing: what the others transmit (range 1e6, everybody
+            # in range) must be lost only as configured - a node's range governs what it transmits, not what it receives
+            scn["profile"]["w"] = dict(scn["profile"]["w"], setRange=1.2)
+            scn["profile"]["ranges"] = [0.25, 1.0e6, 0.25]
         if cfg["hasMob"] and cfg["duration"] is None:
             cfg["duration"] = 6144
         if cfg["maxIter"] is not None and r.random() < 0.7:
